@@ -181,7 +181,32 @@ def run_case(arg):
                 pass
             return present(bpch1(os.path.join(od2, 'w.bpch')), cfg)
         tr['rt'] = attempt(rd_rt)
-        tr['alt'] = attempt(lambda: present(bpch2(path), cfg))
+        alt = {}
+
+        def rd_alt():
+            alt['f'] = bpch2(path)
+            return present(alt['f'], cfg)
+        tr['alt'] = attempt(rd_alt)
+
+        def rd_rt2():
+            # an object that holds its arrays in memory, written twice: the
+            # second file (and the object after the writes) must still carry
+            # the same data
+            od3 = os.path.join(tmp, 'o3')
+            os.makedirs(od3)
+            for k in ('tracerinfo.dat', 'diaginfo.dat'):
+                shutil.copy(os.path.join(tmp, k), os.path.join(od3, k))
+            for name in ('w1.bpch', 'w2.bpch'):
+                o = pncgen(alt['f'], os.path.join(od3, name), format='bpch',
+                           verbose=0)
+                try:
+                    o.close()
+                except Exception:
+                    pass
+            tr['src2'] = attempt(lambda: present(alt['f'], cfg))
+            return present(bpch1(os.path.join(od3, 'w2.bpch')), cfg)
+        tr['src2'] = {'res': 'raised', 'exc': 'not reached', 'got': EMPTY}
+        tr['rt2'] = attempt(rd_rt2)
         return tr
     finally:
         shutil.rmtree(tmp, ignore_errors=True)
